@@ -161,7 +161,7 @@ impl EngA {
 // ---------------------------------------------------------- (de)serialise ---
 
 fn intern(s: &str) -> &'static str {
-    for k in ["foo", "~1.y", "1.2.3.4", "1.2beta4", "x|y", "|", ">=", " ", "  ", "\t", " \t ", "\t||\t", "X", "*", "x", "||", " ||", "|| ", "  ||  ", " || "] {
+    for k in ["foo", "~1.y", "1.2.3.4", "1.2beta4", "x|y", "|", "-", ">=", " ", "  ", "\t", " \t ", "\t||\t", "X", "*", "x", "||", " ||", "|| ", "  ||  ", " || "] {
         if k == s {
             return k;
         }
@@ -443,6 +443,16 @@ fn deviation_family(e: &EngA, prog: &Prog, pairs: bool, sink: &Sink, c: &ACounte
     for d in &ss {
         *local.entry(d.kind().to_string()).or_insert(0) += 1;
         e.check_c01(prog, std::slice::from_ref(d), sink, c, base.as_ref());
+    }
+    if !pairs {
+        // always: a leading blank combined with a stray `-` before the first comparator (the loose
+        // hyphen form without lower end, which npm reads as garbage + comparator)
+        for lead in [Dev::Lead, Dev::TabLead] {
+            let g = Dev::Garbage { alt: 0, pos: 0, tok: "-" };
+            if ss.contains(&g) {
+                e.check_c01(prog, &[lead, g], sink, c, base.as_ref());
+            }
+        }
     }
     if pairs {
         for i in 0..ss.len() {
